@@ -173,9 +173,12 @@ def build_cases(tier, seed):
             net["parallel"] = rnd.choice([0.05, 0.15])
         if j % 3 == 1:
             net["latlon_keys"] = True
+        if j % 8 == 6:
+            # country roads: links of 5-8 km (several thousand location cells each)
+            net.update({"n": 3, "dlat": 0.05, "dlon": 0.07})
         if j % 5 == 2:
             net["origin"] = list(G.PLACES[(j // 5) % len(G.PLACES)])  # a town elsewhere on the globe
-        cases.append({"engine": "c13_sweep", "id": f"C13-sweep{j}", "seed": seed * 1000 + j, "net": net, "n": per})
+        cases.append({"engine": "c13_sweep", "id": f"C13-sweep{j}", "seed": seed * 1000 + j, "net": net, "n": per if net.get("dlat", 0) < 0.05 else per // 8})
     if tier == "thorough":
         for j in range(8):
             cases.append({"engine": "c13_sweep", "id": f"C13-manhattan{j}", "seed": seed * 1000 + 900 + j, "net": {"type": "manhattan"}, "n": 3000})
